@@ -126,7 +126,7 @@ Ltac solve_op :=
 Lemma step_var_inv s m o a : invO s a -> triple a (step_var fl trk fn s m o) invO.
 Proof.
   unfold invO. intros Ha. destruct s as [i0 i1].
-  destruct o as [t j x|t j x|t j x|t j x|t j x|t|t|t|t|t|t| |t|t k x|t|t|t|t|t|t|t| |t|t|t j x|t j x|j x|t j|t j|t k x];
+  destruct o as [t j x|t j x|t j x|t j x|t j x|t|t|t|t|t|t| |t|t k x|t|t|t|t|t|t|t| |t|t|t j x|t j x|j x|t j|t j|t k x|t j x];
     unfold step_var; cbv zeta; try (apply triple_ret; exact Ha);
     try destruct t; prep; timeout 60 solve_op.
 Qed.
@@ -134,7 +134,7 @@ Qed.
 Lemma step_fun_inv s m o a : fn = true -> invO s a -> triple a (step_fun fl trk fn s m o) invO.
 Proof.
   unfold invO. intros Hfn Ha. pose proof (eff0 Hfn) as E0. destruct s as [i0 i1].
-  destruct o as [t j x|t j x|t j x|t j x|t j x|t|t|t|t|t|t| |t|t k x|t|t|t|t|t|t|t| |t|t|t j x|t j x|j x|t j|t j|t k x];
+  destruct o as [t j x|t j x|t j x|t j x|t j x|t|t|t|t|t|t| |t|t k x|t|t|t|t|t|t|t| |t|t|t j x|t j x|j x|t j|t j|t k x|t j x];
     unfold step_fun; cbv zeta; try (apply triple_ret; exact Ha);
     try destruct t; prep; timeout 60 solve_op.
 Qed.
